@@ -18,6 +18,8 @@ import (
 	"os"
 	"os/exec"
 	"path/filepath"
+	"regexp"
+	"sort"
 	"strings"
 	"testing"
 
@@ -60,6 +62,61 @@ func twinEnvs(tier string) []twinEnv {
 	return envs
 }
 
+// envNamesRead: every environment variable name the state-machine source reads through os.Getenv /
+// os.LookupEnv with a literal name (x/, util/, app/, non-test files).  The twins with FlagSet set ALL of
+// them, so that a newly introduced variable is varied too.
+func envNamesRead() []string {
+	repo := os.Getenv("VERIF_REPO")
+	if repo == "" {
+		repo = "/repo"
+	}
+	re := regexp.MustCompile(`os\.(?:LookupEnv|Getenv)\(\s*"([^"]+)"`)
+	set := map[string]bool{ffName: true}
+	for _, d := range []string{"x", "util", "app"} {
+		_ = filepath.WalkDir(filepath.Join(repo, d), func(path string, de os.DirEntry, err error) error {
+			if err != nil || de.IsDir() || !strings.HasSuffix(path, ".go") || strings.HasSuffix(path, "_test.go") {
+				return nil
+			}
+			raw, err := os.ReadFile(path)
+			if err != nil {
+				return nil
+			}
+			for _, m := range re.FindAllSubmatch(raw, -1) {
+				set[string(m[1])] = true
+			}
+			return nil
+		})
+	}
+	var names []string
+	for n := range set {
+		names = append(names, n)
+	}
+	sort.Strings(names)
+	return names
+}
+
+var envNames = envNamesRead()
+
+func isEnvName(kv string) bool {
+	for _, n := range envNames {
+		if strings.HasPrefix(kv, n+"=") {
+			return true
+		}
+	}
+	return false
+}
+
+// flagEnv: the assignments a twin with the flag set adds to its environment.
+func flagEnv(e twinEnv) []string {
+	var out []string
+	if e.FlagSet {
+		for _, n := range envNames {
+			out = append(out, n+"="+e.FlagValue)
+		}
+	}
+	return out
+}
+
 // runChild executes a script in a fresh process under env e and returns the per-step outputs.
 func runChild(t *testing.T, dir string, script []Op, e twinEnv, tag string) ([]stepOut, error) {
 	sp := filepath.Join(dir, "script_"+tag+".json")
@@ -71,7 +128,7 @@ func runChild(t *testing.T, dir string, script []Op, e twinEnv, tag string) ([]s
 	cmd := exec.Command(os.Args[0], "-test.run", "^TestCorr$", "-test.count=1")
 	var env []string
 	for _, kv := range os.Environ() {
-		if strings.HasPrefix(kv, ffName+"=") || strings.HasPrefix(kv, "TZ=") || strings.HasPrefix(kv, "GOMAXPROCS=") || strings.HasPrefix(kv, "C08_") {
+		if isEnvName(kv) || strings.HasPrefix(kv, "TZ=") || strings.HasPrefix(kv, "GOMAXPROCS=") || strings.HasPrefix(kv, "C08_") {
 			continue
 		}
 		env = append(env, kv)
@@ -80,9 +137,7 @@ func runChild(t *testing.T, dir string, script []Op, e twinEnv, tag string) ([]s
 	if e.Extra {
 		env = append(env, "C08_EXTRA=1")
 	}
-	if e.FlagSet {
-		env = append(env, ffName+"="+e.FlagValue)
-	}
+	env = append(env, flagEnv(e)...)
 	cmd.Env = env
 	out, err := cmd.CombinedOutput()
 	if err != nil {
@@ -238,7 +293,7 @@ func TestCorr(t *testing.T) {
 	}
 	nApp, nBlocks := 2, 12
 	if run.Tier == "thorough" {
-		nApp, nBlocks = 8, 24
+		nApp, nBlocks = 20, 24
 	}
 	for h := 0; h < nApp; h++ {
 		sc := genAppScript(run, nBlocks)
